@@ -111,6 +111,18 @@ Theorem C10_other_half_by_conjugation : forall (R : Type) (rO rI : R) (radd rmul
 Proof. exact other_half_by_conjugation. Qed.
 Print Assumptions C10_other_half_by_conjugation.
 
+(* the inverse transform needs the stored half only *)
+Theorem C10_inverse_from_half : forall (R : Type) (rO rI : R) (radd rmul rsub : R -> R -> R) (ropp : R -> R)
+  (Rth : ring_theory rO rI radd rmul rsub ropp (@eq R)) (s : R -> R),
+  (forall x y, s (radd x y) = radd (s x) (s y)) -> (forall x y, s (rmul x y) = rmul (s x) (s y)) -> s rI = rI ->
+  forall (m : nat) (w : R), rpow R rI rmul w (2 ^ S m) = ropp rI -> s w = rpow R rI rmul w (2 * 2 ^ S m - 1) ->
+  forall (f : vec) (j : nat), (j < 2 ^ S m)%nat ->
+  let H := rsum R rO radd (2 ^ m) (fun k => rmul (rpow R rI rmul w ((4 * k + 1) * (2 * 2 ^ S m - j)))
+                                              (ev R rO rI radd rmul ropp (2 ^ S m) (rpow R rI rmul w (4 * k + 1)) f)) in
+  radd H (s H) = rmul (zr R rO rI radd rmul ropp (Z.of_nat (2 ^ S m))) (zr R rO rI radd rmul ropp (f j)).
+Proof. exact inverse_from_half. Qed.
+Print Assumptions C10_inverse_from_half.
+
 (* ... met by the automorphism X -> X^-1 of Z[X]/(X^4+1) *)
 Example C10_conjugation_nonvacuous :
   (forall x y, qconj (qadd x y) = qadd (qconj x) (qconj y)) /\ (forall x y, qconj (qmul x y) = qmul (qconj x) (qconj y)) /\
